@@ -23,6 +23,19 @@
 //! open; at every quiescence the responses determined by the octets
 //! delivered so far are on the wire (a malformed header is answered from its 8
 //! octets); the connection ends after the close; no panic, livelock or spin.
+//!
+//! Space `malformed.headers` (round 8): the header field domains of
+//! malformed queries. One subject header with every combination of version
+//! octet x PDU type x length field x session/zero field, reached by every
+//! route into the connection (first PDU; after queries of each version;
+//! after each kind of recoverable error; as third PDU; after a notify before
+//! the first query), followed by nothing / a good query / the announced body
+//! and a good query. Oracle (3): an octet-level rendering of the protocol
+//! model (`ByteModel`) that keeps every reading RFC 8210 leaves open and
+//! demands the exact data response for every complete well-formed query and
+//! exactly one well-formed Error Report (code, version, encapsulated PDU) -
+//! never a data response - for everything else; then the schedule oracles (2)
+//! at deviation <= 1 around the subject header.
 
 use std::cell::RefCell;
 use std::collections::{BTreeMap, HashSet};
@@ -412,6 +425,229 @@ fn model(seq: &[Q], lens: &[usize], data: &Data) -> (Vec<Expect>, Vec<usize>, bo
 }
 
 
+//------------ the protocol model on octets -----------------------------------
+//
+// A second, octet-level rendering of the same promises: it reads the client's
+// octets header by header and says, for every PDU it finds, what the one
+// response unit due for it may be. It is derived from RFC 8210 (sections 5.1
+// header, 5.3/5.4 queries, 5.11 Error Report, 7 version negotiation, 12 error
+// codes) and the property text. Where these leave the behaviour open, every
+// reading is kept and a transcript is accepted if SOME consistent choice of
+// readings explains it:
+//
+// * after an Error Report the server may go on right after the 8 header
+//   octets it answered from, skip the number of octets the header announced,
+//   or close the connection (RFC 8210 calls these errors fatal; the property
+//   promises an Error PDU and nothing about what follows); a PDU whose
+//   announced octets never arrive may also stay unanswered (a server that
+//   takes in the whole PDU before judging it);
+// * a PDU that carries a supported version but is rejected for another
+//   reason may or may not count as the version negotiation;
+// * a Reset Query whose reserved field is not zero may be answered (RFC 8210
+//   5.1: ignored on receipt) or rejected;
+// * a client Error Report ends all prediction (RFC 8210 5.11: never answered
+//   with an Error Report; the property says nothing).
+//
+// What is never open: a complete well-formed query of an acceptable version
+// gets exactly its data response; every other complete header gets exactly
+// one Error Report PDU that is well formed (length fields add up, UTF-8 text),
+// carries one of the defined codes 0..=8 (which one is not judged: the
+// property says "an Error PDU"), a supported version (the
+// negotiated one once there is one) and encapsulates nothing but a prefix of
+// the offending PDU; and never a data response.
+
+/// The response the harness' source determines for a well-formed query:
+/// `None` is a Reset Query, `Some((session, serial))` a Serial Query.
+fn data_unit(v: u8, q: Option<(u16, u32)>, data: &Data) -> Vec<u8> {
+    let mut unit = Vec::new();
+    match q {
+        None => {
+            unit.extend(hdr(v, 3, SESSION, 8));
+            for i in &data.full { if i.min_version() <= v { unit.extend(i.wire(v, true)) } }
+            unit.extend(end_of_data(v, data.serial));
+        }
+        // the source has nothing for another session: Cache Reset
+        Some((session, _)) if session != SESSION => unit.extend(hdr(v, 8, 0, 8)),
+        Some((_, from)) if from == data.serial => {
+            unit.extend(hdr(v, 3, SESSION, 8));
+            unit.extend(end_of_data(v, data.serial));
+        }
+        Some((_, from)) => match data.diff_from(from) {
+            Some(diff) => {
+                unit.extend(hdr(v, 3, SESSION, 8));
+                for (i, a) in diff { if i.min_version() <= v { unit.extend(i.wire(v, *a)) } }
+                unit.extend(end_of_data(v, data.serial));
+            }
+            None => unit.extend(hdr(v, 8, 0, 8)),
+        },
+    }
+    unit
+}
+
+/// The highest protocol version a server of RFC 8210bis may speak.
+const MODEL_MAX_VERSION: u8 = 2;
+
+#[derive(Clone, Copy, Debug, PartialEq, Eq, Hash)]
+enum Neg { No, Yes(u8) }
+
+/// What the next response unit may be.
+enum Want {
+    Data(Vec<u8>),
+    /// An Error Report with one of these codes, this version (`None`: any
+    /// supported one), for the PDU starting at this offset of the client's octets.
+    Error { codes: &'static [u16], version: Option<u8>, at: usize },
+}
+
+/// Is `unit` an acceptable Error Report for the PDU at `stream[at..]`?
+fn check_error_unit(unit: &[u8], codes: &[u16], version: Option<u8>, offending: &[u8]) -> Result<(), String> {
+    if unit.len() < 16 { return Err(format!("an Error PDU of {} octets (16 is the minimum)", unit.len())) }
+    if unit[1] != T_ERROR { return Err(format!("PDU type {} where an Error PDU was due", unit[1])) }
+    let code = u16::from_be_bytes([unit[2], unit[3]]);
+    // The property demands "an Error PDU"; which of the defined codes (RFC 8210: 0..=8) names the
+    // problem best is not part of it. The fitting codes are recorded as an outcome class only.
+    let _ = codes;
+    if code > 8 { return Err(format!("error code {code} is not one RFC 8210 defines (0..=8)")) }
+    match version {
+        Some(n) if unit[0] != n => return Err(format!("Error PDU carries version {} on a connection that settled on version {n}", unit[0])),
+        None if unit[0] > MODEL_MAX_VERSION => return Err(format!("Error PDU carries the unsupported version {}", unit[0])),
+        _ => {}
+    }
+    let be = |p: usize| u32::from_be_bytes([unit[p], unit[p + 1], unit[p + 2], unit[p + 3]]) as usize;
+    let enc = be(8);
+    if 12 + enc + 4 > unit.len() { return Err(format!("encapsulated PDU length {enc} does not fit the Error PDU of {} octets", unit.len())) }
+    let text = be(12 + enc);
+    if 16 + enc + text != unit.len() { return Err(format!("Error PDU of {} octets, but its parts add up to 16 + {enc} + {text}", unit.len())) }
+    let encapsulated = &unit[12..12 + enc];
+    if !offending.starts_with(encapsulated) {
+        return Err(format!("the Error PDU encapsulates {} which is not (the beginning of) the offending PDU {}", hex(encapsulated), hex(&offending[..offending.len().min(enc.max(8))])))
+    }
+    if std::str::from_utf8(&unit[16 + enc..]).is_err() { return Err("error text is not UTF-8".into()) }
+    Ok(())
+}
+
+/// Matches the response units of a transcript against the octet-level model.
+struct ByteModel<'a> {
+    stream: &'a [u8],
+    data: &'a Data,
+    stripped: &'a [u8],
+    units: &'a [(u8, usize, usize)],
+    /// (offset, negotiated, units matched) states that are known not to lead anywhere
+    dead: HashSet<(usize, Neg, usize)>,
+    /// the complaint at the deepest point any reading got to
+    best: Option<(usize, String)>,
+}
+
+impl<'a> ByteModel<'a> {
+    fn note(&mut self, ui: usize, msg: impl FnOnce() -> String) {
+        if self.best.as_ref().map(|b| ui > b.0).unwrap_or(true) { self.best = Some((ui, msg())) }
+    }
+
+    fn ends(&mut self, ui: usize, why: &str) -> bool {
+        if ui == self.units.len() { return true }
+        let n = self.units.len();
+        self.note(ui, || format!("{n} response units, but after the first {ui} {why}"));
+        false
+    }
+
+    /// Can the units from `ui` on be explained by the client's octets from
+    /// `pos` on, on a connection whose version negotiation stands at `neg`?
+    fn go(&mut self, pos: usize, neg: Neg, ui: usize) -> bool {
+        if self.dead.contains(&(pos, neg, ui)) { return false }
+        let (stream, stripped, data) = (self.stream, self.stripped, self.data);
+        let rest = &stream[pos..];
+        if rest.len() < 8 { return self.ends(ui, "the client's octets hold no further complete header") }
+        let (v, t) = (rest[0], rest[1]);
+        let s = u16::from_be_bytes([rest[2], rest[3]]);
+        let l = u32::from_be_bytes([rest[4], rest[5], rest[6], rest[7]]) as u64;
+        // a client Error Report: nothing is promised from here on
+        if t == T_ERROR { return true }
+        let version_ok = match neg { Neg::Yes(n) => v == n, Neg::No => v <= MODEL_MAX_VERSION };
+        // where the connection may stand after an Error Report for this PDU
+        let total = stream.len() as u64;
+        let after_error = |negs: &[Neg]| -> Vec<Option<(usize, Neg)>> {
+            let mut nx = vec![None];
+            for n in negs {
+                nx.push(Some((pos + 8, *n)));
+                // (announced octets that never arrive: the server waits for them until the client closes)
+                if l > 8 && pos as u64 + l <= total { nx.push(Some((pos + l as usize, *n))) }
+            }
+            nx
+        };
+        let mut alts: Vec<(Want, Vec<Option<(usize, Neg)>>)> = Vec::new();
+        if !version_ok {
+            let codes: &'static [u16] = match neg { Neg::Yes(_) if v > MODEL_MAX_VERSION => &[8, 4], Neg::Yes(_) => &[8], Neg::No => &[4] };
+            let version = match neg { Neg::Yes(n) => Some(n), Neg::No => None };
+            alts.push((Want::Error { codes, version, at: pos }, after_error(&[neg])));
+        } else {
+            let version = match neg { Neg::Yes(n) => Some(n), Neg::No => None };
+            let rejected: Vec<Neg> = if neg == Neg::No { vec![Neg::Yes(v), Neg::No] } else { vec![neg] };
+            match (t, l) {
+                (2, 8) => {
+                    alts.push((Want::Data(data_unit(v, None, data)), vec![Some((pos + 8, Neg::Yes(v)))]));
+                    if s != 0 { alts.push((Want::Error { codes: &[0, 3], version, at: pos }, after_error(&rejected))) }
+                }
+                (1, 12) => {
+                    if rest.len() < 12 { return self.ends(ui, "the last serial query of the client is incomplete") }
+                    let serial = u32::from_be_bytes([rest[8], rest[9], rest[10], rest[11]]);
+                    alts.push((Want::Data(data_unit(v, Some((s, serial)), data)), vec![Some((pos + 12, Neg::Yes(v)))]));
+                }
+                (1, _) | (2, _) => alts.push((Want::Error { codes: &[0, 3], version, at: pos }, after_error(&rejected))),
+                _ => alts.push((Want::Error { codes: &[0, 3, 5], version, at: pos }, after_error(&rejected))),
+            }
+        }
+        let describe = |rest: &[u8]| format!("the PDU at offset {pos} of the client's octets (header {}: version {v}, type {t}, session/zero {s:#x}, length {l}; negotiated so far: {})",
+            hex(&rest[..8]), match neg { Neg::No => "nothing".to_string(), Neg::Yes(n) => format!("version {n}") });
+        // a server that takes in the whole announced PDU before it judges it is still
+        // waiting when the client closes: no answer, and nothing after it
+        if ui == self.units.len() && l > 8 && pos as u64 + l > total && alts.iter().all(|(w, _)| matches!(w, Want::Error { .. })) { return true }
+        let Some(&(ty, a, b)) = self.units.get(ui) else {
+            let n = self.units.len();
+            self.note(ui, || format!("{} got no response ({n} response units in all)", describe(rest)));
+            self.dead.insert((pos, neg, ui));
+            return false
+        };
+        for (want, nexts) in alts {
+            let got = &stripped[a..b];
+            let fit = match &want {
+                Want::Data(w) => if got == w.as_slice() { Ok(()) } else if ty == T_ERROR { Err("an Error PDU where the data response of a well-formed query was due".to_string()) } else {
+                    let d = got.iter().zip(w.iter()).position(|(x, y)| x != y).unwrap_or(got.len().min(w.len()));
+                    Err(format!("a response that differs from the model's at octet {d}: PDU order (type:length) [{}], expected [{}]", pdu_order(got), pdu_order(w)))
+                },
+                Want::Error { codes, version, at } => if ty != T_ERROR { Err(format!("a data response (type {ty}: [{}]) where exactly one Error PDU was due", pdu_order(got))) }
+                    else { check_error_unit(got, codes, *version, &stream[*at..]) },
+            };
+            match fit {
+                Err(why) => self.note(ui, || format!("response unit {} is not acceptable for {}: {why}", ui + 1, describe(rest))),
+                Ok(()) => for nx in nexts {
+                    let ok = match nx {
+                        None => self.ends(ui + 1, "the connection would have been closed by the server (fatal error)"),
+                        Some((p, n)) => self.go(p, n, ui + 1),
+                    };
+                    if ok { return true }
+                },
+            }
+        }
+        self.dead.insert((pos, neg, ui));
+        false
+    }
+}
+
+/// Compares the transcript of a run without notify events with the
+/// octet-level model.
+fn check_against_byte_model(obs: &Obs, stream: &[u8], data: &Data) -> Result<(), String> {
+    if obs.conn_panicked { return Err("connection task panicked".into()) }
+    if obs.livelock || obs.spin || obs.flood { return Err("livelock/spin/flood guard tripped".into()) }
+    if !obs.conn_ended { return Err("connection still open after the client closed (hang)".into()) }
+    let p = parse(&obs.out).map_err(|e| format!("transcript is not a PDU sequence: {e}; got {}", rpki_verif::trunc(&hex(&obs.out), 200)))?;
+    if !p.complaints.is_empty() { return Err(p.complaints.join("; ")) }
+    if p.notifies != 0 { return Err("Serial Notify without a notify event".into()) }
+    let mut m = ByteModel { stream, data, stripped: &p.stripped, units: &p.units, dead: HashSet::new(), best: None };
+    if m.go(0, Neg::No, 0) { return Ok(()) }
+    Err(format!("no reading of the client's octets explains the responses: {}; unit types {:?}", m.best.map(|b| b.1).unwrap_or_default(),
+        p.units.iter().map(|u| match u.0 { T_RESPONSE => "data".to_string(), T_RESET => "cache-reset".to_string(), _ => format!("error{}", u16::from_be_bytes([p.stripped[u.1 + 2], p.stripped[u.1 + 3]])) }).collect::<Vec<_>>()))
+}
+
+
 //------------ reading transcripts -------------------------------------------
 
 #[derive(Clone, Copy, Debug)]
@@ -732,6 +968,8 @@ fn main() {
     ctx.assume("the harness' PayloadSource (fixed data set, session 0x1234, serial 7, one retained diff) is the data the responses must carry");
     ctx.assume("writes are accepted at once, except for the 1-octet-write and held-back-response variants at deviation <= 1; notifications fired before the connection has subscribed are out of scope");
 
+    ctx.assume("malformed.headers: where RFC 8210 and the property text leave the reaction to a malformed PDU open (going on after the header / skipping the announced length / closing after the Error Report / waiting for announced octets that never come; whether a rejected PDU with a supported version settles the version; a non-zero reserved field in a Reset Query) every reading is accepted; a client Error Report ends all prediction");
+
     let base = Data::base();
     let src = match guard(|| Src::new(&base)) {
         Ok(s) => s,
@@ -776,8 +1014,10 @@ fn main() {
     let data_replay = ctx.replay.as_ref().map(|(_, w)| w.starts_with("data=")).unwrap_or(false);
     // witnesses of the participant and history spaces: those (small) spaces are run as a whole
     let space_replay = ctx.replay.as_ref().map(|(_, w)| w.starts_with("party=") || w.starts_with("source=") || w.starts_with("after ")).unwrap_or(false);
-    if data_replay { streams.truncate(1) }
-    let replay_case: Option<(String, Vec<Ev>)> = ctx.replay.as_ref().filter(|_| !data_replay && !space_replay).map(|(_, w)| {
+    // witnesses of the malformed.headers space carry their own octets and schedule
+    let mal_replay = ctx.replay.as_ref().map(|(_, w)| w.starts_with("route=")).unwrap_or(false);
+    if data_replay || mal_replay { streams.truncate(1) }
+    let replay_case: Option<(String, Vec<Ev>)> = ctx.replay.as_ref().filter(|_| !data_replay && !space_replay && !mal_replay).map(|(_, w)| {
         let names = w.split_whitespace().find_map(|t| t.strip_prefix("stream=")).unwrap_or("").to_string();
         let sched = w.split_once("sched=").and_then(|(_, r)| parse_script(r));
         match sched {
@@ -789,7 +1029,7 @@ fn main() {
 
     // deviation bound per stream size: [1 PDU, 2 PDUs, 3 PDUs]
     let bound_by_pdus: [usize; 3] = ctx.tier.pick([3, 3, 2], [4, 4, 3]);
-    let max_bound = if data_replay || space_replay { 0 } else { *bound_by_pdus.iter().max().unwrap() };
+    let max_bound = if data_replay || space_replay || mal_replay { 0 } else { *bound_by_pdus.iter().max().unwrap() };
 
     //--- (1) reference runs against the protocol model ----------------------
     let sp = ctx.space("reference.model",
@@ -805,6 +1045,8 @@ fn main() {
         let (expect, _, complete, _) = model(&st.qs, &lens, &base);
         if expect.iter().any(|e| matches!(e, Expect::Exact(_))) { sp.nontrivial(1) }
         ctx.check("C08.ref.model", wit, || check_against_model(&obs, &expect, complete));
+        // the same transcript against the octet-level rendering of the model (every acceptable reading kept)
+        ctx.check("C08.ref.byte_model", wit, || check_against_byte_model(&obs, &st.bytes, &base));
         // the answers must be on the wire at quiescence, before the client closes
         ctx.check("C08.ref.prompt", wit, || {
             let p = parse(&obs.out)?;
@@ -928,9 +1170,7 @@ fn main() {
     // Judges one schedule: outcome class and the oracles it violates (with
     // details). A pure function of (stream, script), so that the failures
     // can be reported in a canonical order after the parallel phase.
-    let judge_party = |si: usize, script: &[Ev], party: Party| -> Result<(&'static str, Obs, Vec<(&'static str, String)>), String> {
-        let st = &streams[si];
-        let rf = &refs[si];
+    let judge_on = |st: &Stream, rf: &Obs, script: &[Ev], party: Party| -> Result<(&'static str, Obs, Vec<(&'static str, String)>), String> {
         let obs = guard(|| execute_with(&src, &st.bytes, script, party, None))?;
         let fired = script.iter().filter(|e| matches!(e, Ev::Notify)).count();
         let mut bad: Vec<(&'static str, String)> = Vec::new();
@@ -1006,6 +1246,7 @@ fn main() {
             else { "equal" };
         Ok((class, obs, bad))
     };
+    let judge_party = |si: usize, script: &[Ev], party: Party| judge_on(&streams[si], &refs[si], script, party);
     let judge = |si: usize, script: &[Ev]| judge_party(si, script, Party::Alone);
     let witness = |si: usize, script: &[Ev]| format!("stream={} hex={} sched={}", streams[si].names, hex(&streams[si].bytes), render_script(script));
     // failures of the parallel phase: (oracle, stream, script)
@@ -1189,7 +1430,163 @@ fn main() {
     sp.done(exhaustive, &format!("deviation bound {} on 1-PDU streams, {} on 2-PDU streams, {} on 3-PDU streams ({} streams)",
         bound_by_pdus[0], bound_by_pdus[1], bound_by_pdus[2], streams.len()));
 
-    if replay_case.is_none() && !data_replay {
+    //--- (2b) the header field domains of malformed queries --------------------------
+    if ctx.replay.is_none() || mal_replay {
+    let sp = ctx.space("malformed.headers",
+        "one subject header with EVERY combination of version octet {0,1,2,3,255} x PDU type {0..=11, 255} x length field {every value 0..=40, 0xFF, 0x100, 0xFFFF, 0x10000, 2^31-1, 2^31, 2^32-1, and the two correct lengths 8 and 12 as a truncation, shift, sign or byte-order slip leaves them: +2^8, +2^16, +2^24, +2^31, <<8, <<16, <<24, negated} x session/zero field {0, 1, 0xFFFF, the source's session}, reached by every route into the connection: as first PDU, as second PDU after a reset query of version 0 / 1 / 2, after a serial query, after a recoverable error (unsupported version; non-query; bad length), as third PDU after query+query, error+query, query+version error, query+non-query, error+error; followed by nothing / by a good reset query right after the header / by the announced number of body octets and then a good reset query; delivered in one piece and compared with the octet-level protocol model (exact data response for every complete well-formed query; exactly one well-formed Error Report with a fitting code, version and encapsulated PDU and never a data response for everything else; every reading RFC 8210 leaves open is accepted: going on after the header / skipping the announced length / closing after the error, a rejected PDU counting or not counting as version negotiation); then under the schedule dimensions at deviation <= 1 (a cut at every position from the start of the subject header to 12 octets on, one notify before / with / after the octets - which is the notify-before-first-query route -, 1-octet reads, 1-octet writes, a short first write, close batched with the octets) compared with the one-piece run; quick tier: schedules for every header on the first-PDU route and for a boundary subset of lengths on the other routes; non-trivial = streams whose subject header is malformed or unsupported (measured: the model demands an Error Report for it)");
+    {
+        let versions = [0u8, 1, 2, 3, 255];
+        let types: Vec<u8> = (0u8..=11).chain([255u8]).collect();
+        let mut lengths: Vec<u32> = (0u32..=40).collect();
+        lengths.extend([0xFF, 0x100, 0xFFFF, 0x1_0000, 0x7FFF_FFFF, 0x8000_0000, 0xFFFF_FFFF]);
+        for c in [8u32, 12] { lengths.extend([c + 0x100, c + 0x1_0000, c + 0x100_0000, c + 0x8000_0000, c << 8, c << 16, c << 24, 0u32.wrapping_sub(c)]) }
+        lengths.sort(); lengths.dedup();
+        let sessions = [0u16, 1, 0xFFFF, SESSION];
+        // lengths that get the schedule dimension on every route in the quick tier
+        let boundary: [u32; 14] = [0, 1, 7, 8, 9, 11, 12, 13, 16, 40, 0x108, 0x1_000C, 0x0800_0000, 0xFFFF_FFFF];
+        const TAILS: [&str; 3] = ["none", "reset", "body+reset"];
+
+        struct Route { name: &'static str, prefix: Vec<u8>, npdus: usize, follower: Option<u8> }
+        let route = |name: &'static str, parts: &[Vec<u8>], follower: Option<u8>| Route { name, prefix: parts.concat(), npdus: parts.len(), follower };
+        let reset = |v: u8| hdr(v, 2, 0, 8);
+        let routes = vec![
+            route("first", &[], None),
+            route("after-reset0", &[reset(0)], Some(0)),
+            route("after-reset1", &[reset(1)], Some(1)),
+            route("after-reset2", &[reset(2)], Some(2)),
+            route("after-serial1", &[serial_query(1, SERIAL - 1)], Some(1)),
+            route("after-unsupported-version", &[reset(3)], None),
+            route("after-nonquery1", &[hdr(1, 9, 0, 8)], Some(1)),
+            route("after-badlength1", &[hdr(1, 1, SESSION, 8)], Some(1)),
+            route("after-reset1+serial1", &[reset(1), serial_query(1, SERIAL - 1)], Some(1)),
+            route("after-unsupported-version+reset1", &[reset(3), reset(1)], Some(1)),
+            route("after-reset1+version-switch", &[reset(1), reset(3)], Some(1)),
+            route("after-reset2+nonquery2", &[reset(2), hdr(2, 4, 0, 8)], Some(2)),
+            route("after-unsupported-version-twice", &[reset(3), reset(255)], None),
+        ];
+
+        // the schedules of deviation <= 1 for a stream of `len` octets whose subject header starts at `hs`
+        let deviations = |len: usize, hs: usize, out: &mut Vec<Vec<Ev>>| {
+            out.clear();
+            let base = vec![Ev::Deliver(len), Ev::Settle, Ev::Close, Ev::Settle];
+            out.push(vec![Ev::Deliver(len), Ev::Close, Ev::Settle]);
+            for first in [Ev::ReadChunk(1), Ev::WriteChunk(1), Ev::ShortWrite(1)] { let mut w = vec![first]; w.extend_from_slice(&base); out.push(w) }
+            for p in hs.max(1)..=(hs + 12).min(len - 1) { schedules(len, &[p], 0, false, out) }
+            schedules(len, &[], 1, false, out);
+        };
+
+        struct Out { evals: u64, nontrivial: u64, trans: u64, scheduled: u64, oc: BTreeMap<String, u64>, fails: Vec<(&'static str, String, String)> }
+        let rename = |oracle: &'static str| -> &'static str { match oracle {
+            "C08.sched.responses_equal" => "C08.malformed.sched.responses_equal", "C08.sched.terminates" => "C08.malformed.sched.terminates",
+            "C08.sched.framing" => "C08.malformed.sched.framing", "C08.sched.notify_between_responses" => "C08.malformed.sched.notify_between_responses",
+            "C08.sched.notify_count" => "C08.malformed.sched.notify_count", "C08.sched.notify_delivered" => "C08.malformed.sched.notify_delivered",
+            "C08.sched.prompt" => "C08.malformed.sched.prompt", other => other } };
+        let mk_stream = |bytes: Vec<u8>, npdus: usize| Stream { names: String::new(), bytes, qs: vec![], npdus, bounds: vec![], due: vec![], idle_at: vec![0] };
+
+        if let Some((_, w)) = &ctx.replay {
+            // one case: the octets and the schedule the witness names
+            let bytes = rpki_verif::unhex(w.split_whitespace().find_map(|t| t.strip_prefix("hex=")).unwrap_or(""));
+            let Some(script) = w.split_once("sched=").and_then(|(_, r)| parse_script(r)) else { eprintln!("machinery: cannot read the witness {w}"); std::process::exit(2) };
+            let one = vec![Ev::Deliver(bytes.len()), Ev::Settle, Ev::Close, Ev::Settle];
+            sp.evals(2);
+            match guard(|| execute(&src, &bytes, &one)) {
+                Err(p) => ctx.fail("C08.malformed.model", w.clone(), format!("driver panicked: {p}")),
+                Ok(rf) => {
+                    println!("replay: one-piece transcript {}", hex(&rf.out));
+                    if script == one { if let Err(d) = check_against_byte_model(&rf, &bytes, &base) { ctx.fail("C08.malformed.model", w.clone(), d) } }
+                    let st = mk_stream(bytes.clone(), 1);
+                    match judge_on(&st, &rf, &script, Party::Alone) {
+                        Ok((class, obs, bad)) => { println!("replay: {w} -> {class}; transcript {}", hex(&obs.out)); for (oracle, d) in bad { ctx.fail(rename(oracle), w.clone(), d) } }
+                        Err(p) => ctx.machinery_error(format!("driver panicked: {p}")),
+                    }
+                }
+            }
+            sp.done(false, "replay of one case");
+        } else {
+        let jobs: Vec<(usize, u8, u8)> = (0..routes.len()).flat_map(|r| versions.iter().flat_map(move |v| (0..13usize).map(move |t| (r, *v, t as u8)))).collect();
+        let thorough = ctx.tier.is_thorough();
+        let outs: Vec<Out> = jobs.par_iter().map(|&(ri, v, ti)| {
+            let mut o = Out { evals: 0, nontrivial: 0, trans: 0, scheduled: 0, oc: BTreeMap::new(), fails: vec![] };
+            let (rt, t) = (&routes[ri], types[ti as usize]);
+            let fv = rt.follower.unwrap_or(if v <= MODEL_MAX_VERSION { v } else { 1 });
+            let mut scs: Vec<Vec<Ev>> = Vec::new();
+            for &l in &lengths { for &s in &sessions { for tail in 0..3usize {
+                let whole_serial = t == 1 && l == 12;
+                if tail == 2 && (whole_serial || l <= 8 || l > 40) { continue }
+                let hs = rt.prefix.len();
+                let mut bytes = rt.prefix.clone();
+                bytes.extend(hdr(v, t, s, l));
+                if whole_serial { bytes.extend((SERIAL - 1).to_be_bytes()) }
+                if tail == 2 { let f = reset(fv); bytes.extend((0..(l as usize - 8)).map(|i| f[i % 8])) }
+                if tail >= 1 { bytes.extend(reset(fv)) }
+                let one = [Ev::Deliver(bytes.len()), Ev::Settle, Ev::Close, Ev::Settle];
+                let wit = |sc: &[Ev]| format!("route={} header=v{v},t{t},s{s:#x},len{l} tail={} hex={} sched={}", rt.name, TAILS[tail], hex(&bytes), render_script(sc));
+                o.evals += 1; o.trans += 2;
+                let rf = match guard(|| execute(&src, &bytes, &one)) { Ok(x) => x, Err(p) => { o.fails.push(("C08.malformed.model", wit(&one), format!("driver panicked: {p}"))); continue } };
+                // what the model says about the subject header on its own, for the counts
+                let settled = rt.follower.filter(|_| rt.name != "after-nonquery1" && rt.name != "after-badlength1");
+                let version_fits = match settled { Some(n) => v == n, None => v <= MODEL_MAX_VERSION };
+                let well_formed = version_fits && (whole_serial || (t == 2 && l == 8));
+                if !well_formed && t != T_ERROR { o.nontrivial += 1 }
+                let verdict = check_against_byte_model(&rf, &bytes, &base);
+                let class = match (&verdict, parse(&rf.out)) {
+                    (Err(_), _) => "violation".to_string(),
+                    (Ok(()), Ok(p)) => {
+                        let subject = match p.units.get(rt.npdus) {
+                            None => "no-response".to_string(),
+                            Some(&(T_RESPONSE, ..)) => "data".to_string(),
+                            Some(&(T_RESET, ..)) => "cache-reset".to_string(),
+                            Some(&(_, a, _)) => format!("error-code-{}", u16::from_be_bytes([p.stripped[a + 2], p.stripped[a + 3]])),
+                        };
+                        let version_open = settled.is_none() && rt.follower.is_some() && v <= MODEL_MAX_VERSION && Some(v) != rt.follower;
+                        format!("subject:{}->{subject}", if t == T_ERROR { "client-error-report" } else if version_open { "version-after-rejected-pdu(open)" } else if well_formed { "well-formed" } else if !version_fits { "version" } else { "malformed" })
+                    }
+                    (Ok(()), Err(_)) => "violation".to_string(),
+                };
+                *o.oc.entry(class).or_insert(0) += 1;
+                if let Err(d) = verdict { o.fails.push(("C08.malformed.model", wit(&one), d)); continue }
+                // the schedule dimension
+                if !(thorough || ri == 0 || (tail == 1 && boundary.contains(&l) && (s == 0 || s == SESSION))) { continue }
+                o.scheduled += 1;
+                let st = mk_stream(bytes.clone(), rt.npdus + 1);
+                deviations(bytes.len(), hs, &mut scs);
+                for sc in &scs {
+                    o.evals += 1; o.trans += sc.len() as u64;
+                    match judge_on(&st, &rf, sc, Party::Alone) {
+                        Ok((class, _, bad)) => {
+                            *o.oc.entry(format!("schedule:{class}")).or_insert(0) += 1;
+                            for (oracle, d) in bad { o.fails.push((rename(oracle), wit(sc), d)) }
+                        }
+                        Err(p) => o.fails.push(("C08.malformed.sched.terminates", wit(sc), format!("driver panicked: {p}"))),
+                    }
+                }
+            } } }
+            o
+        }).collect();
+        let (mut streams_n, mut scheduled) = (0u64, 0u64);
+        let mut fails: Vec<(&'static str, String, String)> = Vec::new();
+        for o in outs {
+            sp.evals(o.evals); sp.nontrivial(o.nontrivial); sp.states(o.evals); sp.traces(o.evals); sp.transitions(o.trans);
+            for (k, n) in &o.oc { sp.outcomes_n(k, *n); if !k.starts_with("schedule:") { streams_n += n } }
+            scheduled += o.scheduled;
+            fails.extend(o.fails);
+        }
+        // the shortest witnesses first: those are the ones that get printed
+        fails.sort_by(|a, b| (a.0, a.1.len(), &a.1).cmp(&(b.0, b.1.len(), &b.1)));
+        for (oracle, w, d) in fails { ctx.fail(oracle, w, d) }
+        sp.set("versions", serde_json::json!(versions)); sp.set("types", serde_json::json!(types));
+        sp.set("lengths", serde_json::json!(lengths)); sp.set("session_or_zero_field", serde_json::json!(sessions));
+        sp.set("routes", serde_json::json!(routes.iter().map(|r| format!("{}={}", r.name, hex(&r.prefix))).collect::<Vec<_>>()));
+        sp.set("tails", serde_json::json!(TAILS));
+        sp.set("streams", serde_json::json!(streams_n)); sp.set("streams_with_schedule_dimension", serde_json::json!(scheduled));
+        sp.sample_str(|| { let b = hdr(1, 2, 0, 4); let o = execute(&src, &b, &[Ev::Deliver(8), Ev::Settle, Ev::Close, Ev::Settle]); format!("route=first header=v1,t2,s0x0,len4 tail=none hex={} -> {}", hex(&b), hex(&o.out)) });
+        sp.sample_str(|| { let mut b = reset(1); b.extend(hdr(255, 1, 0xFFFF, 12)); b.extend((SERIAL - 1).to_be_bytes()); b.extend(reset(1)); let o = execute(&src, &b, &[Ev::Deliver(b.len()), Ev::Settle, Ev::Close, Ev::Settle]); format!("route=after-reset1 header=v255,t1,s0xffff,len12 tail=reset hex={} -> {} response units", hex(&b), parse(&o.out).map(|p| p.units.len()).unwrap_or(0)) });
+        sp.done(true, &format!("{} routes x {} versions x {} types x {} lengths x {} session/zero values x <= 3 tails = {} streams in one piece; deviation bound 1 on {} of them", routes.len(), versions.len(), types.len(), lengths.len(), sessions.len(), streams_n, scheduled));
+        }
+    }
+    }
+
+    if replay_case.is_none() && !data_replay && !mal_replay {
     //--- (3) a second holder of the notify sender ------------------------------------
     let sp = ctx.space("participants.notify",
         "streams of <= 2 PDUs that leave the connection open and in frame; the observed connection shares its NotifySender with (a) a receiver from subscribe() that is never polled, (b) a second connection that stays idle, (c) a second connection whose reset response is stuck after 0 / 9 / 60 octets; schedules: <= 1 cut and 0 to 3 notify events in every arrangement (own batches, batched with chunks, bursts) as in the schedules space; the observed connection must behave exactly as when it is alone: same responses, Serial Notify only between responses, at most one per event, at least one per moment at which it is idle with a notification pending; non-trivial = schedules with >= 2 notify events (the second one meets a channel the other participant has not drained)");
